@@ -80,7 +80,11 @@ def run(ctx):
     ctx.ob("C20.1", "%s|flag-before-wakeup" % d0.id, "the flag is set before the self-connection that wakes the accept thread (otherwise the thread would go back to accept)", ok, where)
     for c in connects:
         o = f.origin(f.term(c)["args"][0])
-        ctx.ob("C20.1", "%s|connects-to-own-address|%s" % (d0.id, "unix" if "unix" in call_name(f.term(c)) else "tcp"), "the wake-up connection targets the server's own listening address", addr_f in origin_fields(o), f.loc(c))
+        # ... the stored address itself, not an address computed from parts of it (a rebuilt `loopback:port` is refused when the server is
+        # bound to another interface, and the accept thread is never woken)
+        rebuilt = [short(x[1]) for x in origin_calls(o) if not re.search(r"(as_pathname|unwrap|expect|deref|as_ref|borrow|clone|to_owned|as_path|Option::<T>::\w+|Result::<T, E>::\w+)$", x[1])]
+        ctx.ob("C20.1", "%s|connects-to-own-address|%s" % (d0.id, "unix" if "unix" in call_name(f.term(c)) else "tcp"), "the wake-up connection targets the server's own listening address (the stored address itself)",
+               addr_f in origin_fields(o) and not rebuilt, f.loc(c), None if not rebuilt else "address computed through %s" % rebuilt[:3])
     la = facts.adt(LADDR)
     for v in la["variants"]:
         kind = v["name"]
